@@ -38,3 +38,12 @@ theorem sqrt_unique_up_to_sign {F : Type*} [Field F] (x y : F) (h : x ^ 2 = y ^ 
 
 /-- secp256k1 field prime is 3 mod 4 and the curve order differs from it (sanity of the constants used) -/
 theorem secp_p_mod_four : (2 ^ 256 - 2 ^ 32 - 977 : ℕ) % 4 = 3 := by norm_num
+
+/-- double-and-add step used by the loop invariant of `Point.__rmul__` (C03.4) -/
+theorem nsmul_binary_step {G : Type*} [AddCommMonoid G] (c : ℕ) (Q : G) :
+    c • Q = (c / 2) • (Q + Q) + (c % 2) • Q := by
+  have h : c = 2 * (c / 2) + c % 2 := (Nat.div_add_mod c 2).symm
+  calc c • Q = (2 * (c / 2) + c % 2) • Q := by rw [← h]
+    _ = (2 * (c / 2)) • Q + (c % 2) • Q := add_nsmul Q _ _
+    _ = (c / 2) • (2 • Q) + (c % 2) • Q := by rw [mul_comm, mul_nsmul']
+    _ = (c / 2) • (Q + Q) + (c % 2) • Q := by rw [two_nsmul]
